@@ -78,12 +78,15 @@ def read_tables(repo):
     for cls in ast.walk(tree2):
         if isinstance(cls, ast.ClassDef) and cls.name == 'MediaList':
             for n in ast.walk(cls):
-                if isinstance(n, ast.Compare) and len(n.ops) == 1:
-                    both = [n.left, n.comparators[0]]
-                    consts = [b.value for b in both if isinstance(b, ast.Constant) and isinstance(b.value, str)]
-                    names = [b.id for b in both if isinstance(b, ast.Name)]
-                    if consts and names and names[0] in ('mediaType', 'mts', 'newmt'):
-                        all_words.update(consts)
+                # a media type literal that a comparison of the list code singles out (independent of the names of
+                # the locals): `x == 'all'`, `'all' in xs`, `xs.count('all')`
+                consts = []
+                if isinstance(n, ast.Compare):
+                    consts = [b.value for b in [n.left] + list(n.comparators)
+                              if isinstance(b, ast.Constant) and isinstance(b.value, str)]
+                elif isinstance(n, ast.Call) and isinstance(n.func, ast.Attribute) and n.func.attr in ('count', 'index'):
+                    consts = [a.value for a in n.args if isinstance(a, ast.Constant) and isinstance(a.value, str)]
+                all_words.update(c for c in consts if c in media_types)
     if len(all_words) != 1:
         raise ValueError('c17 translator: expected the single absorbing media type literal, found %r' % (all_words,))
     return {'media_types': media_types, 'prefix': kw_in[0], 'and': sorted(set(kw_eq)), 'all': sorted(all_words),
